@@ -229,6 +229,36 @@ if "C07" in CLAIMED and os.path.exists(os.path.join(HERE, "lean", "Ivy", "Props"
                                "consumption of a kick / kernel timer / raw read (wake_progress); the source-aware idle oracle used on implementation logs is proved sound (idle_free); "
                                "the first-draft spin oracle is proved to admit a false positive (stale kick + stale kernel timer) and sound under an explicit hypothesis.")
 
+def _has(name):
+    return os.path.exists(os.path.join(HERE, "lean", "Ivy", "Props", name + ".lean"))
+if "C16" in CLAIMED and _has("C16ptr"):
+    CLAIMED["C16"]["text"] += (" Extension (Ivy/Props/C16ptr.lean, 14 theorems): a pointer-level model (heap of nodes with parent/left/right/height; find_reference, the four "
+                               "rotations, rebalance_path with its early stop, insert, the three delete cases, min/max/next/prev transcribed statement by statement) is proved to "
+                               "refine the functional model (insert_refines, delete_refines: memory outside the tree untouched, parent pointers consistent) and min+next / max+prev "
+                               "are proved to visit exactly the ordered contents and to terminate; the pointer model runs on every differential case too, and the harness cuts "
+                               "non-terminating traversals.")
+    CLAIMED["C16"]["note"] = CLAIMED["C16"]["note"].replace("parent pointers checked at run time only", "the transcription of iv_avl.c into Ivy/L0/AvlPtr.lean (tied by the differential run); uint8_t height as Nat")
+if "C17" in CLAIMED and os.path.exists(os.path.join(HERE, "lean", "Ivy", "L3", "PumpCache.lean")):
+    CLAIMED["C17"]["text"] += (" Extension (6 more theorems): the per-thread buffer cache (buf_get/buf_put, LIFO, MAX_CACHED_BUFS from the source, a pipe that holds bytes is closed, "
+                               "not cached) and several concurrently live pumps are modelled as a thread machine in which stale buffer content, if any existed, would really flow "
+                               "to the sink; proved for every op sequence: cached buffers are empty and bounded (cache_clean), an acquired buffer is empty (acquire_empty), every "
+                               "live pump keeps the stream invariant also after other pumps died with data buffered (pump_isolation, thread_stream), buffers are neither leaked nor "
+                               "double-freed (no_buffer_leak, deinit_no_leak). The harness runs up to 32 pumps on one thread with per-pipe virtual content and exact accounting.")
+if "C18" in CLAIMED and _has("C18tls"):
+    CLAIMED["C18"]["text"] += (" Extensions: (Ivy/Props/C18tls.lean, 6 theorems) the iv_tls registry: for every sequence of module registrations each module's region is inside the "
+                               "block iv_init allocates, above struct iv_state, aligned and disjoint from all others, every init/deinit hook is called once per thread in "
+                               "registration order, registration is frozen after the first init; differential run of iv_tls.c (white-box) + layout oracle. The descriptor-flag oracle "
+                               "covers every family and descriptor kind (sockets, pipe ends). The scenario families of C08/C10/C11/C19 are re-run under the deterministic scheduler "
+                               "with LeakSanitizer: no library allocation may be unreachable when a run ends or can go no further.")
+if "C15" in CLAIMED:
+    CLAIMED["C15"]["text"] += (" The scenario programs of C09 are run in the three iv_event_raw transports (eventfd2 / old eventfd / pipe fallback) x four methods with C09's oracle as part "
+                               "of this check (missing-facility clause).")
+for _id in ("C01", "C02", "C03"):
+    if _id in CLAIMED:
+        CLAIMED[_id]["text"] += (" Besides the random families an ENUMERATED family (264 scenarios every run) covers same-iteration retraction: the handler dispatched first "
+                                 "(descriptor, cross-thread iv_event, iv_event_raw) clears/unregisters/frees/recycles/re-registers another source already collected in that "
+                                 "iteration, both arrival orders, all four methods, plus failed-then-successful registration of the same struct.")
+
 NOT_YET = "check not built yet in this round; planned per DESIGN.md §7 (Lean model + theorems + correspondence)"
 
 checks = []
